@@ -91,6 +91,7 @@ def run(F, rep, tier):
     keyed_table_size(rep, lua, mods)
     externals_fully_typed(F, rep, mods)
     declared_purity(rep, lua, mods)
+    library_values_have_their_fields(F, rep, lua, mods)
     # abs / min / max / clamp / sign touch their arguments only through comparisons and negation: decided on every order cell
     import ordeval
     ordeval.decide(F, rep, lua)
@@ -359,6 +360,51 @@ def declared_purity(rep, lua, mods, rule="PURITY-DECL"):
                    "`bump :: pu xs: [int] -> int do list.set(xs, 0, get(xs, 0) + 1) .. end` gives 1, then 2" % (name, "; ".join(sorted(set(bad)))),
                    "std/%s.sy" % mname)
     rep.floor(rule, "externals declared pu with a Lua definition", n, 15)
+
+
+def library_values_have_their_fields(F, rep, lua, mods, rule="LIB-VALUE"):
+    """A `blob` declared in the library promises fields: `d.f` type-checks and `T { f: .. }` builds a value of the type.  For a
+    type whose values are made by a Lua constructor (an external that returns it) the table that constructor builds has to
+    have those fields - otherwise the declaration should be an `externblob` (no fields to name, no literal to write)."""
+    import os
+    n = 0
+    for mname in sorted(mods):
+        text = F.read(os.path.join("std", mname + ".sy"))
+        for mm in re.finditer(r"^([A-Z][A-Za-z0-9_]*)\s*::\s*blob\s*(?:\([^)]*\))?\s*\{([^}]*)\}", text, flags=re.M):
+            tname = mm.group(1)
+            fields = [x.split(":")[0].strip() for x in re.split(r"[,\n]", mm.group(2)) if ":" in x]
+            makers = []
+            for name, types in sorted(mods[mname]["externals"].items()):
+                for t in types:
+                    if t[0] == "fn" and t[3][0] == "user" and t[3][1].split(".")[-1] == tname and \
+                            not any(p[0] == "user" and p[1].split(".")[-1] == tname for p in t[2]):
+                        makers.append(name)
+            for mk in sorted(set(makers)):
+                g = lua.globals.get(mk)
+                if not g or g[0] != "function":
+                    continue
+                keys = None
+                for x in luaparse.walk(g[1]["body"]):
+                    if x.get("k") == "Return" and x["es"]:
+                        e = x["es"][0]
+                        if e.get("k") == "Call" and luaparse.show(e["f"]) == "setmetatable" and e["args"]:
+                            e = e["args"][0]
+                        if e.get("k") == "Table":
+                            keys = set()
+                            for it in e.get("items", e.get("fields", [])):
+                                kk = it[0] if isinstance(it, (tuple, list)) else it.get("key")
+                                if isinstance(kk, dict) and kk.get("k") in ("String", "Name"):
+                                    keys.add(kk.get("v", kk.get("name")))
+                if keys is None:
+                    continue
+                n += 1
+                missing = [f_ for f_ in fields if f_ not in keys]
+                rep.ob(rule, "%s.%s|made-by-%s|declared-fields-exist" % (mname, tname, mk), not missing,
+                       "%s builds a %s with the fields its declaration names" % (mk, tname) if not missing else
+                       "`%s` is declared as a blob with the fields %s, but %s() builds it as a table without them: `d.%s` type-checks and "
+                       "reads nil, and the literal `%s { .. }` is accepted as a %s although it is not one the library functions can work "
+                       "with - the declaration should be an externblob" % (tname, fields, mk, missing[0], tname, tname), "std/%s.sy" % mname)
+    rep.ob(rule, "census", True, "%d library blob types made by a Lua constructor compared with that constructor" % n, sites=n)
 
 
 def keyed_table_size(rep, lua, mods):
